@@ -18,7 +18,8 @@ RULE = ("modules of 1-3 dataclasses written to real files (linear inheritance ch
         "every (class, field) gets a subset of the five documentation positions {help=, docstring below, comment block above, "
         "inline comment, class-docstring Args entry} filled with marker texts that are distinct per class x field x position x "
         "line; all 32 subsets x neighbour documentation x field order x quote style are enumerated for a two-field class, the rest "
-        "is sampled from VERIF_SEED over: field order, 0-2 blank lines, 1-3 line comment blocks, one-line / multi-line docstrings "
+        "is sampled from VERIF_SEED over: string defaults with '#' inside single / double / triple quotes, escaped quotes and backslashes "
+        "(with and without a real comment after the string), field order, 0-2 blank lines, 1-3 line comment blocks, one-line / multi-line docstrings "
         "(text on the quote lines or not), both quote styles, decorators with arguments, field names that are prefixes of each "
         "other. Extra streams: a class docstring documenting an inherited field; multiple inheritance queried in both orders "
         "(cache history); '#' inside a string default; a comment on the class line; malformed sources (valid-Python snippets in "
@@ -32,9 +33,12 @@ TRUSTED = ["inspect.getsource / inspect.getdoc / cls.__doc__ (observed per class
 ASSUMPTIONS = ["source text is ASCII with '\\n' as the only line boundary (checked per case by in_scope)",
                "the lru_cache (2048 entries) never evicts within one case"]
 
+# string defaults with '#' inside single / double / triple quotes, escaped quotes, escaped backslashes, raw strings
+HASH_DEFAULTS = ['"#ff0000"', "'#'", '"a # b"', "'''t#q'''", '"""d # q"""', '"q\\"#"', "'it\\'s #1'", '"back\\\\"', '"mixed \' # quote"', '\'other " # one\'', 'r"raw\\d#"', '"#" + "#"', '(\'#\', "#")[0]']
+
 NAMES = ["a", "ab", "abc", "x", "x_", "x1", "lr", "lr_decay", "_p", "name", "names"]
 TYPES = ["int", "float", "str", "bool", "List[int]", "Optional[str]", "Dict[str,int]"]
-VALUES = {"int": ["0", "12"], "float": ["0.5", "1e-3"], "str": ["'s'", "\"two words\""], "bool": ["False", "True"],
+VALUES = {"int": ["0", "12"], "float": ["0.5", "1e-3"], "str": ["'s'", "\"two words\""] + HASH_DEFAULTS[:11], "bool": ["False", "True"],
           "List[int]": ["field(default_factory=list)", "field(default_factory=lambda: [1, 2])"], "Optional[str]": ["None"],
           "Dict[str,int]": ["field(default_factory=dict)"]}
 DECOS = [["@dataclass"], ["@dataclass(frozen=True)"], ["@dataclass()"], ["@dataclass(eq=True, order=False)"],
@@ -298,7 +302,9 @@ def gen_mixin(rng, order):
 def gen_hash_default(rng):
     k = all_default(mk_class(rng, "K", [], [("color", rng.choice([[], ["above"], ["below"]])), ("n", rng.choice(subsets()))]))
     f = k["fields"][0]
-    f["type"], f["value"] = "str", rng.choice(['"#ff0000"', "'#'", '"a # b"'])
+    f["type"], f["value"] = "str", rng.choice(HASH_DEFAULTS)
+    if rng.random() < 0.5:      # '#' inside the string AND a real comment after it
+        f["inline"] = marker("K", "color", "inline")
     case = dict(kind="hash-in-default", classes=[k], target="K", spec=True)
     case["queries"] = std_queries(rng, case)
     return case
